@@ -30,6 +30,12 @@ CHECKS = {
  "C12": dict(cat="exploration", engine="enumeration", technique="bounded-exhaustive enumeration of DAGs x payload alphabets through dict/JSON/file round trips with an independent structural comparison",
              text="Every DAG of the family (terminals with and without outputs, multi-output nodes, empty graph) plus graphs built by fluent programs is serialised and read back as dict, JSON and Cascade file; names, outputs, inputs and payloads are compared structurally and with Graph.__eq__.",
              note="Unique node names (precondition); JSON path only for JSON-faithful payloads.", ref="DESIGN.md 3 C12"),
+ "C13": dict(cat="exploration", engine="enumeration", technique="bounded-exhaustive enumeration of fluent programs (op sequences to depth 2/3 over explicit parameter alphabets) against a NumPy-only reference model",
+             text="Every program of the family is built with the real fluent API, its graph evaluated by a small payload interpreter and compared at every coordinate (values, dimension names/sizes/order, documented coordinates) with a reference that re-defines each operation from its documentation with NumPy; every batch size from 0 to beyond the dimension size, with and without keep_dim.",
+             note="Values are small distinct integers in float64; labels compared only where documented; reduced dimensions have size >= 2; new-dimension names are fresh.", ref="DESIGN.md 3 C13"),
+ "C15": dict(cat="exploration", engine="enumeration", technique="bounded-exhaustive enumeration of operations x arities x shapes x dtypes x axes x backends against NumPy, and of every batch partition for every function marked batchable",
+             text="Each backend operation is called on plain arrays, DataArrays and Datasets for every argument count, shape, dtype and axis/dim/index of the alphabet and compared with NumPy; every function carrying the batchable marker (found by scanning Backend) is checked for f(f(b1),..,f(bk)) == f(all) over every partition of up to 5 arguments.",
+             note="earthkit-data FieldList backend not importable here; values are small positive integers.", ref="DESIGN.md 3 C15"),
  "C16": dict(cat="exploration", engine="enumeration", technique="bounded-exhaustive enumeration of all DAGs (n<=5/6) x 4 variants against a networkx reference model",
              text="Every edge set over <=5 (quick) / <=6 (thorough) labelled tasks in four variants goes through the real precompute() and is compared field by field with a networkx reference (components, sources, edge projections, depth, value, nearest-common-descendant distances).",
              note="Only the Python fallback of nearest_common_descendant is reachable (coptrs not installed); DAGs above 6 tasks outside the bound.", ref="DESIGN.md 3 C16"),
@@ -76,7 +82,7 @@ def main():
              "kind_free_text": "stateless DFS with prefix replay + state-hash pruning over the real controller.run against a reference cluster behind the Bridge interface"},
             {"name": "bfs", "path": "vf/checks", "serves_properties": ["C08", "C09", "C18"],
              "kind_free_text": "explicit-state BFS over operation histories (fresh real objects rebuilt per history, canonical state hashing)"},
-            {"name": "enumeration", "path": "vf/checks", "serves_properties": ["C11", "C12", "C16", "C17", "C19"],
+            {"name": "enumeration", "path": "vf/checks", "serves_properties": ["C11", "C12", "C13", "C15", "C16", "C17", "C19"],
              "kind_free_text": "bounded-exhaustive input/program enumeration against a reference model"},
         ],
         "checks": checks,
